@@ -98,7 +98,9 @@ def revalidate_head(ctx, RV, gpaths, ci):
                 {"conds_in_section": [c.text for c in conds]},
             )
             ret = [e for e in p.evs[i:] if e.kind == "return" and e.depth == 0]  # of get() itself, not of a helper inlined into it
-            ctx.check(bool(ret) and snap_component(snap_canon(ret[0].text, snaps)) == f"snap<{cur}>" and set(re.findall(r"\w+'", ret[0].text)) <= validated, RV, f"{CLS}.get returns the validated head", "get() does not return the element it validated", f"{ci.module.relpath}:{p.evs[i].line}")
+            # (the element component of what popleft() itself returned is the head that was just validated, in the same critical section)
+            popped_itself = bool(ret) and bool(ident) and re.fullmatch(r"self\._queue\.(popleft\(\)|pop\(0\))\[0\]", ret[0].text) is not None
+            ctx.check(popped_itself or (bool(ret) and snap_component(snap_canon(ret[0].text, snaps)) == f"snap<{cur}>" and set(re.findall(r"\w+'", ret[0].text)) <= validated), RV, f"{CLS}.get returns the validated head", "get() does not return the element it validated", f"{ci.module.relpath}:{p.evs[i].line}")
     if npop == 0:
         raise AnalysisError("anchor vanished: no popleft in DelayedQueue.get")
 
